@@ -64,8 +64,8 @@ V_ASSIGNS(g_lock_held, g.lock_calls, g.unlock_calls, g.signal_calls, g.addthr_ca
 V_ENSURES(!g_lock_held)                                                                                                                     /*@C06.mutex-released-on-every-path*/
 V_ENSURES(V_IMP(pool == NULL || task == NULL, V_RET == -EINVAL && g.lock_calls == V_OLD(g.lock_calls)))
 /* accepted: exactly one task record carrying (fn, arg) is appended to the queue, and one waiter is signalled, all under the mutex */
-V_ENSURES(V_IMP(V_RET == 0 && pool != NULL && task != NULL, g.enq_calls == V_OLD(g.enq_calls) + 1 && g.enq_q == g_tasks && g.enq_arg == g_last_alloc
-                && ((thpool_task_t *)g_last_alloc)->fn == task && ((thpool_task_t *)g_last_alloc)->arg == arg && g.signal_calls == V_OLD(g.signal_calls) + 1))  /*@C06.accepted-task-enqueued-exactly-once-with-its-argument*/
+V_ENSURES(V_IMP(V_RET == 0 && pool != NULL && task != NULL, g.enq_calls == V_OLD(g.enq_calls) + 1 && __CPROVER_pointer_equals(g.enq_q, g_tasks) && __CPROVER_pointer_equals(g.enq_arg, g_last_alloc
+               ) && ((thpool_task_t *)g_last_alloc)->fn == task && ((thpool_task_t *)g_last_alloc)->arg == arg && g.signal_calls == V_OLD(g.signal_calls) + 1))  /*@C06.accepted-task-enqueued-exactly-once-with-its-argument*/
 V_ENSURES(V_IMP(V_RET != 0, g.enq_calls == V_OLD(g.enq_calls)))                                                                              /*@C06.refused-task-is-not-enqueued*/
 /* lazy pools never go beyond the configured number of threads */
 V_ENSURES(V_IMP(g.addthr_calls > V_OLD(g.addthr_calls), (g_pool->flags & M_THPOOL_LAZY) && g.addthr_num == 1 && g.addthr_calls == V_OLD(g.addthr_calls) + 1))
